@@ -122,7 +122,7 @@ func c19Call(via string, path string, timeout time.Duration) c19Result {
 
 func c19Check(ctx *Ctx, dir string, c c19Case, n int, mu *sync.Mutex) {
 	timeout := time.Duration(c.TimeoutS * float64(time.Second))
-	path := c19Build(dir, &c, n)
+	path := filepath.Join(dir, fmt.Sprintf("cmd-%d.sh", n)) // written by c19Build before any command was started
 	var stopVanish chan struct{}
 	if c.Mode == "vanishing" {
 		// remove and re-create the file as fast as possible while the call runs
@@ -250,6 +250,22 @@ func init() {
 		var mu sync.Mutex
 		var wg sync.WaitGroup
 		sem := make(chan struct{}, 4) // parallelism <= 4 keeps the wall-clock oracle honest
+		// All scripts are written before the first command is started: a child forked while another goroutine still has
+		// an executable open for writing inherits that descriptor until its own exec, and the kernel then refuses to
+		// execute the other file ("text file busy") - an artefact of writing executables in the process that runs them.
+		{
+			k := 0
+			for rep := 0; rep < reps; rep++ {
+				for i := range cases {
+					if (i+rep)%ctx.Of != ctx.Batch {
+						continue
+					}
+					k++
+					cc := cases[i]
+					c19Build(dir, &cc, k+rep*10000)
+				}
+			}
+		}
 		n := 0
 		for rep := 0; rep < reps; rep++ {
 			for i, c := range cases {
